@@ -233,7 +233,7 @@ def gen_B(rng, tier):
     x = rng.random()
     if x < 0.35:
         toks = [g_token(rng, kf=False) for _ in range(rng.choice([1, 2, 3, 5, 8, 12]))]
-        seps = [b" ", b" ", b"", b"\n", b"\t", b"  ", b" \\\n ", b"\r\n", b"//c\n", b"/* c */"]
+        seps = [b" ", b" ", b"", b"\n", b"\t", b"  ", b" \\\n ", b"\r\n", b"//c\n", b"/* c */", b"// c \\\n d\n", b"//\\\r\n"]
         b = b"".join(spell(t) + rng.choice(seps) for t in toks)
     elif x < 0.75:
         toks = [g_token(rng, kf=False) for _ in range(rng.choice([1, 2, 3, 5]))]
@@ -256,6 +256,43 @@ def gen_B(rng, tier):
         b = bytes(rng.choice(ALPHA) for _ in range(rng.choice([1, 2, 3, 4, 6, 10, 20, 40])))
     b = bytes(c for c in b if c != 0)
     return "B " + chunks(b)
+
+
+def g_line_body(rng):
+    """text of a // comment after the slashes: plain bytes and backslash pairs (never backslash-backslash, never a
+    lone backslash at the end); backslash-newline (also backslash, CR, LF... the CR is just the escaped byte) continues
+    the comment on the next line"""
+    out = bytearray()
+    for _ in range(rng.choice([0, 1, 2, 4, 7, 12])):
+        x = rng.random()
+        if x < 0.30:
+            out += b"\\" + bytes([rng.choice([10, 10, 10, 13, 32, 34, 39, 42, 47, 110, 120])])
+        else:
+            out.append(rng.choice(list(b"abc xyz01 */\"'(){};=+-#@$\t") + [0x80, 0xff]))
+    if rng.random() < 0.35:
+        out += b" \\\n" + rng.choice([b"", b"a = a / 0;", b"  second line", b"// x", b"\"s"])
+    return bytes(c for c in out if c != 0)
+
+
+def gen_L(rng, tier):
+    for _ in range(20):
+        b = g_line_body(rng)
+        # keep inside the reference: no backslash-backslash, no trailing lone backslash, no bare newline
+        ok, i = True, 0
+        while i < len(b):
+            if b[i] == 92:
+                if i + 1 >= len(b) or b[i + 1] == 92:
+                    ok = False
+                    break
+                i += 2
+            elif b[i] == 10:
+                ok = False
+                break
+            else:
+                i += 1
+        if ok:
+            return "L " + chunks(b)
+    return "L " + chunks(b"a \\\nb")
 
 
 def gen_H(rng, tier):
@@ -287,6 +324,8 @@ def fixed_cases():
               b"/*/ x */", b"/* \\*/ y */", b"1e+\n5 x", b"a \\b c", b"..5 ...5 1.2.3", b"0x 0b 0xg 1e 1e+ 1e+x 1e5e6e7", b"u8 'c'",
               b'u8"s"_k L\'c\'_m uR"(r)"', b"sizeof...(a) new[] delete[] throwx", b"/*", b"//", b"/", b"\\", b"a\\", b'"\\', b"'"]:
         cs.append("B " + chunks(w))
+    for w in [b"a \\\nb", b"\\\n", b"x \\\r y", b"", b"disabled for now \\\na = a / 0;", b"\\n \\\n\\\n z", b"a\\ b"]:
+        cs.append("L " + chunks(w))
     for w in [b"<abc", b"<abc\n", b"<abc>", b'"abc"', b'"abc', b"abc", b"", b" <a b>", b"+x>"]:
         cs.append("H " + chunks(w))
     cs += ["Q I4c S0.616263.", "Q I7472756531", "Q S0.2261.", "Q C0.27.", "Q S2.22615c6e.5f6b C16.275c6e.", "Q P31652b35 O2b P2e35",
@@ -389,6 +428,7 @@ def run(run, tier, seed, replay_case=None):
     cases += [gen_Q(rng, tier) for _ in range(nq)]
     cases += [gen_B(rng, tier) for _ in range(nb)]
     cases += [gen_H(rng, tier) for _ in range(nh)]
+    cases += [gen_L(rng, tier) for _ in range(nh)]
     if replay_case is not None:
         cases = [replay_case]
     env = C.lib_env("asan")
@@ -403,11 +443,12 @@ def run(run, tier, seed, replay_case=None):
     cov["rule"] = ("Q: token sequences drawn from the C/OKL lexical grammar (identifiers incl. keywords/encoding-prefix names/"
                    "true-false prefixes, int/float literals with suffixes, every operator of the regenerated table, char/string "
                    "literals with prefixes, escapes, leading quotes and user suffixes, block comments, newlines, stray bytes), "
-                   "built as token objects, printed by the library, re-tokenized; B: the same grammar spelled by a reference "
+                   "built as token objects, printed by the library, re-tokenized; L: // comments with backslash pairs and "
+                   "backslash-newline continuations, followed by a newline and an identifier (exact tokens required); B: the same grammar spelled by a reference "
                    "printer with varied separators, byte mutations/truncations of it, and random bytes from a quote/backslash/"
                    "digit-heavy alphabet, tokenized, printed, re-tokenized under ASan; H: getHeader inputs. non-trivial = at "
                    "least two tokens (Q) or three bytes (B/H); distinct = distinct case text")
-    kinds = {k: sum(1 for c in cases if c.startswith(k + " ")) for k in "QBH"}
+    kinds = {k: sum(1 for c in cases if c.startswith(k + " ") or c == k) for k in "QBHL"}
     cov["case_kinds"] = kinds
     pick = [0, len(cases) // 3, 2 * len(cases) // 3, len(cases) - 1]
     cov["samples"] = [dict(case=cases[i][:300], impl=I[i][:300], model=R[i][:300], spec=S[i][:300]) for i in pick if i < len(cases)]
